@@ -97,8 +97,9 @@ Fixpoint names_perm (a b : list string) : bool :=
 
 (* ------------------------------------------------------------------ cases *)
 
+(** [o_up], [o_fup]: the headers handed on to the upstream service with the cache and without *)
 Record obs := { o_key : option string; o_hit : bool; o_calls : nat; o_out : outcome;
-                o_fresh : outcome; o_fcalls : nat }.
+                o_fresh : outcome; o_fcalls : nat; o_up : alist; o_fup : alist }.
 
 Record ostep := { os_step : step; os_obs : obs }.
 
@@ -155,6 +156,8 @@ Definition corr_gen (exact : bool) (fx : fixes) (c : case) : bool :=
   key_pattern_ok (map sr_key (run_cached fx H (c_world c) [] steps)) (map o_key obss) &&
   forallb orders_ok steps && forallb (fun s => wf_instb (st_inst s)) steps &&
   all2 (sres_matches exact) (run_cached fx H (c_world c) [] steps) obss &&
+  all2 (fun s o => alist_perm (upstream_of (st_inst s) (o_out o)) (o_up o) &&
+                   alist_perm (upstream_of (st_inst s) (o_fresh o)) (o_fup o)) steps obss &&
   all2 fresh_matches (run_fresh (c_world c) steps) obss &&
   rep_ok exact fx steps (c_rep c).
 
@@ -164,7 +167,8 @@ Definition corr := corr_gen false.
 
 (** (P1) enabling the cache changes no outcome *)
 Definition p_transparent (c : case) : bool :=
-  forallb (fun x => outcome_eqb (o_out (os_obs x)) (o_fresh (os_obs x))) (c_steps c).
+  forallb (fun x => outcome_eqb (o_out (os_obs x)) (o_fresh (os_obs x)) &&
+                    alist_perm (o_up (os_obs x)) (o_fup (os_obs x))) (c_steps c).
 
 (** (P2) an identical request after an allowed one, caching instance: no remote call *)
 Fixpoint p_hits_from (earlier : list ostep) (l : list ostep) : bool :=
@@ -193,9 +197,11 @@ Definition check (fx : fixes) (c : case) : verdict :=
   let rp := match c_rep c with Some r => Some (rp_step r) | None => None end in
   {| v_corr := corr fx c;
      v_prop := prop c;
-     v_guards := guards [(1%Z, g_F1 steps rp && negb (fx1 fx)); (2%Z, g_F2 steps && negb (fx2 fx));
-                         (3%Z, g_F3 steps && negb (fx3 fx)); (10%Z, g_F10 steps && negb (fx10 fx));
-                         (4%Z, g_F4 fx (H_tab (c_sha c)) steps); (6%Z, g_F6 steps); (7%Z, g_F7 steps)] |}.
+     v_guards :=
+       let H := H_tab (c_sha c) in
+       guards [(1%Z, g_F1 steps rp && negb (fx1 fx)); (2%Z, g_F2 fx H steps && negb (fx2 fx));
+               (3%Z, g_F3 fx H steps && negb (fx3 fx)); (10%Z, g_F10 fx H steps && negb (fx10 fx));
+               (4%Z, g_F4 fx H steps); (6%Z, g_F6 fx H steps); (7%Z, g_F7 fx H steps)] |}.
 
 (* ------------------------------------------------------------------ short names for generated files *)
 
@@ -215,7 +221,8 @@ Definition snt u m h c a b :=
   {| s_url := u; s_method := m; s_headers := h; s_cookies := c; s_auth := a; s_body := b |}.
 Definition res s sub sc := {| rs_sent := s; rs_sub := sub; rs_scopes := sc; rs_aud := []; rs_active := true |}.
 Definition resx s sub sc au ac := {| rs_sent := s; rs_sub := sub; rs_scopes := sc; rs_aud := au; rs_active := ac |}.
-Definition ob k h n o f fn := {| o_key := k; o_hit := h; o_calls := n; o_out := o; o_fresh := f; o_fcalls := fn |}.
+Definition ob k h n o f fn up fup :=
+  {| o_key := k; o_hit := h; o_calls := n; o_out := o; o_fresh := f; o_fcalls := fn; o_up := up; o_fup := fup |}.
 Definition stp i q ho vo o := {| os_step := {| st_inst := i; st_req := q; st_ho := ho; st_vo := vo |}; os_obs := o |}.
 Definition wld t d := {| t_tok := t; t_deny := d |}.
 Definition rp s n d u := {| rp_step := s; rp_runs := n; rp_distinct := d; rp_unexplained := u |}.
